@@ -120,7 +120,13 @@ def make_basis(h, m, e, kind, quadrature=None, intorder=None):
         fs = bf[[int(x) for x in spec.split(',')]]
         return S.FacetBasis(m, e, facets=fs, **kw)
     if kind.startswith('ifacet-'):
-        side = int(kind.split('-')[1])
+        parts = kind.split('-')
+        side = int(parts[1])
+        if len(parts) > 2 and parts[2].startswith('subset:'):
+            # a subset of the interior facets, given by position in the list of interior facets
+            ifac = np.nonzero(np.asarray(m.f2t)[1] != -1)[0]
+            fs = ifac[[int(x) for x in parts[2].split(':')[1].split(',')]].astype(np.int32)
+            return S.InteriorFacetBasis(m, e, side=side, facets=fs, **kw)
         return S.InteriorFacetBasis(m, e, side=side, **kw)
     raise ValueError(kind)
 
@@ -505,6 +511,10 @@ def build_configs(tier, seed):
     add('tri2', 'TriP2', 'gradfield', 'cell', trial=('TriP1', None))
     # (curved second-order meshes were tried with symbolic mid-side nodes: the library's `detDF == 0` guard forks on a determinant the
     #  solver cannot separate from the harness' own non-degeneracy assumption within minutes - outside the claim, DESIGN 10.6)
+    # a subset of the interior facets (tri3fan has two), either side, also with different sides for trial and test
+    add('tri3fan', 'TriP1', 'ifjump', 'ifacet-0-subset:1')
+    add('tri3fan', 'TriP2', 'ifjump', 'ifacet-1-subset:0', free=[1, 4])
+    add('tri3fan', 'TriP1', 'mass', 'ifacet-0-subset:1', trial=('TriP1', 'ifacet-1-subset:1'))
     # threaded kernel: rectangular local matrices in both directions, more threads than pairs, facet bases
     add('tri2', 'TriP1', 'nonsym', 'cell', trial=('TriP2', None), nthreads=2)
     add('tri2', 'TriP2', 'wx', 'cell', trial=('TriP0', None), nthreads=4)
